@@ -437,6 +437,82 @@ func runC08(c *bx.Ctx) {
 			}
 		}
 	}
+	// bounded scalar fields: a value that does not fit its wire field must not be emitted masked
+	c.Space("over-width-fields")
+	if c.Mine() {
+		type sub struct {
+			key, desc string
+			run       func() ([]byte, error)
+		}
+		var subs []sub
+		for _, v := range []uint16{4, 7, 0x8000, 0xffff} {
+			v := v
+			subs = append(subs, sub{"RunLengthChunk.PacketStatusSymbol", fmt.Sprintf("symbol %#x", v), rtcp.RunLengthChunk{Type: rtcp.TypeTCCRunLengthChunk, PacketStatusSymbol: v, RunLength: 5}.Marshal})
+		}
+		for _, v := range []uint16{8192, 8193, 0x8000, 0xffff} {
+			v := v
+			subs = append(subs, sub{"RunLengthChunk.RunLength", fmt.Sprintf("run length %#x", v), rtcp.RunLengthChunk{Type: rtcp.TypeTCCRunLengthChunk, PacketStatusSymbol: 1, RunLength: v}.Marshal})
+		}
+		for _, v := range []uint16{2, 3, 0xffff} {
+			v := v
+			subs = append(subs, sub{"StatusVectorChunk.SymbolList(one-bit)", fmt.Sprintf("symbol %#x in a one-bit vector", v), rtcp.StatusVectorChunk{Type: rtcp.TypeTCCStatusVectorChunk, SymbolSize: 0, SymbolList: []uint16{1, v, 0}}.Marshal})
+		}
+		for _, v := range []uint16{4, 5, 0xffff} {
+			v := v
+			subs = append(subs, sub{"StatusVectorChunk.SymbolList(two-bit)", fmt.Sprintf("symbol %#x in a two-bit vector", v), rtcp.StatusVectorChunk{Type: rtcp.TypeTCCStatusVectorChunk, SymbolSize: 1, SymbolList: []uint16{1, v, 0}}.Marshal})
+		}
+		for _, v := range []uint16{2, 3, 0xffff} {
+			v := v
+			subs = append(subs, sub{"StatusVectorChunk.SymbolSize", fmt.Sprintf("symbol size %#x", v), rtcp.StatusVectorChunk{Type: rtcp.TypeTCCStatusVectorChunk, SymbolSize: v, SymbolList: []uint16{1, 0}}.Marshal})
+		}
+		for _, k := range subs {
+			var out []byte
+			var err error
+			msg, pan := bx.Guard(func() { out, err = k.run() })
+			c.T(1)
+			rp := bx.Replay{Entry: k.key + ".Marshal", Ops: k.desc, Expected: "an error and no bytes"}
+			switch {
+			case pan:
+				rp.Observed = "panic: " + msg
+				c.Report(keyJoin("C08/over-width", k.key, "panic"), "a sub-structure encoder panics on a field value wider than its wire field", rp)
+			case err == nil:
+				rp.Observed = bx.Hex(out)
+				c.Report(keyJoin("C08/over-width", k.key, "masked"), "a sub-structure encoder succeeds on a field value wider than its wire field: the emitted field is the value masked", rp)
+			case len(out) != 0:
+				rp.Observed = bx.Hex(out)
+				c.Report(keyJoin("C08/over-width", k.key, "bytes-with-error"), "a sub-structure encoder returns bytes together with an error", rp)
+			default:
+				c.NT()
+			}
+		}
+	}
+	for _, b := range ref.Builders(c.Thorough()) {
+		if strings.HasPrefix(b.Shape, "big:") || b.Type == "CompoundPacket" || b.Type == "RawPacket" {
+			continue
+		}
+		if !c.Mine() {
+			continue
+		}
+		b := b
+		ref.OverWidthEach(b.Make, func(p rtcp.Packet, path, key string, v uint64) {
+			out, err, pan := safeMarshal(p)
+			c.T(1)
+			rp := bx.Replay{Entry: "Marshal", Ops: fmt.Sprintf("%s{%s} with %s = %#x", b.Type, b.Shape, path, v), Expected: "an error and no bytes", Value: ref.Dump(p)}
+			switch {
+			case pan != "":
+				rp.Observed = "panic: " + pan
+				c.Report(keyJoin("C08/over-width", key, "panic"), "Marshal panics on a field value wider than its wire field", rp)
+			case err == nil:
+				rp.Observed = bx.Short(out)
+				c.Report(keyJoin("C08/over-width", key, "masked"), "Marshal succeeds on a field value wider than its wire field: the emitted field is the value masked", rp)
+			case len(out) != 0:
+				rp.Observed = bx.Short(out)
+				c.Report(keyJoin("C08/over-width", key, "bytes-with-error"), "Marshal returns bytes together with an error", rp)
+			default:
+				c.NT()
+			}
+		})
+	}
 	// the length field itself: it counts 32-bit words minus one in 16 bits, so 262144 octets is the largest packet.
 	// Whatever is larger must be refused; whatever marshals must carry a length field that describes it.
 	c.Space("length-field")
